@@ -37,6 +37,15 @@ for _i, _k in enumerate(KINDS):
         NAME_OP[_n] = 3 + _i
 NAME_OP["normalize"] = 6
 ALL_NAMES = [n for n in NAME_OP if n != "normalize"]
+# public mutators: construct_face_centers("welzl") / ("cartesian average"); "set:<name>" re-assigns a
+# variable its current values through the property setter (a no-op of the model)
+NAME_OP["welzl"] = 7
+NAME_OP["cartavg"] = 8
+MUTATORS = ["welzl", "cartavg", "normalize"] + ["set:" + n for n in ALL_NAMES]
+
+
+def op_code(n):
+    return 9 if n.startswith("set:") else NAME_OP[n]
 TOL_DIR = mp.mpf("1e-9")          # rad
 TOL_SNAP = mp.mpf("1.5e-4")       # rad, direction error allowed inside the pole-snap zone
 TOL_UNIT = 1e-12
@@ -181,7 +190,10 @@ def gen_case(rng, prov=None, ops=None, special=None, big=False):
     }
     if ops is None:
         k = rng.randrange(0, 6)
-        ops = [rng.choice(ALL_NAMES + ["normalize", "normalize"]) for _ in range(k)]
+        pool = ALL_NAMES + ["normalize", "normalize"] + (
+            ["welzl", "welzl", "cartavg", "cartavg", "welzl", "cartavg"] + [rng.choice(MUTATORS[3:]) for _ in range(3)]
+            if rng.random() < 0.6 else [])
+        ops = [rng.choice(pool) for _ in range(k)]
     case["ops"] = list(ops)
     # every case ends by reading all six groups (each through a random member) in random order
     tail = [rng.choice(LLN[k]) for k in KINDS] + [rng.choice(XYZN[k]) for k in KINDS]
@@ -256,6 +268,14 @@ class Source:
                                                         attrs=dict(ugrid.EDGE_NODE_CONNECTIVITY_ATTRS))
         return ds
 
+    def mean_truth(self, kind):
+        """normalised mean of the corner unit vectors of every face, whatever the source supplied"""
+        out = []
+        for el in self.faces:
+            s = [mp.fsum(self.node_dir[i][a] for i in el) / len(el) for a in range(3)]
+            out.append(mp_norm(s))
+        return out
+
     def truth(self, kind, corners=None):
         """exact directions of the elements of `kind`; for centres the source does not supply:
         normalised mean of the corner unit vectors (corners read from the grid for edges)"""
@@ -293,6 +313,19 @@ def run_impl(src):
     for nm in src.case["ops"] + src.case["tail"]:
         if nm == "normalize":
             g.normalize_cartesian_coordinates()
+            ret = None
+        elif nm == "welzl":
+            g.construct_face_centers("welzl")
+            ret = None
+        elif nm == "cartavg":
+            g.construct_face_centers("cartesian average")
+            ret = None
+        elif nm.startswith("set:"):
+            var = nm[4:]
+            if var in g._ds:
+                import xarray as xr
+                old = g._ds[var]
+                setattr(g, var, xr.DataArray(np.array(old.values).copy(), dims=old.dims, attrs=dict(old.attrs)))
             ret = None
         else:
             ret = np.array(getattr(g, nm).values, dtype=float).copy()
@@ -389,6 +422,21 @@ def check_xyz(src, kind, xyz, truth, must_be_unit):
     return None
 
 
+def systems_agree(ll, xyz):
+    """(lon, lat) in degrees and (x, y, z) denote the same directions (1e-9 rad; 1.5e-4 rad in the
+    pole-snap zone); float64 is ample for this comparison"""
+    lo, la = np.radians(ll[0]), np.radians(ll[1])
+    v = np.array([np.cos(lo) * np.cos(la), np.sin(lo) * np.cos(la), np.sin(la)])
+    w = np.array(xyz, dtype=float)
+    n = np.sqrt((w * w).sum(axis=0))
+    if v.shape != w.shape or not (np.all(np.isfinite(v)) and np.all(np.isfinite(w))) or np.any(n == 0):
+        return False
+    w = w / n
+    ang = np.arctan2(np.linalg.norm(np.cross(v.T, w.T), axis=1), (v * w).sum(axis=0))
+    tol = np.where(np.abs(w[2]) > 1 - 1.0e-8 - 1e-11, 1.5e-4, 1e-9)
+    return bool(np.all(ang <= tol))
+
+
 def truth_for(src, g, kind):
     if kind == "edge" and "edge" not in src.dirs:
         en = np.asarray(g.edge_node_connectivity.values)
@@ -401,9 +449,69 @@ def spec_check_case(ck, src, g, steps):
     case = src.case
     normalized_groups = set()
     n_fail = 0
+    face_override = [None]          # directions installed by construct_face_centers
+    face_unit = [False]             # ... and whether the Cartesian centres must now be unit
+
+    def truth_of(kind):
+        if kind == "face" and face_override[0] is not None:
+            return face_override[0]
+        return truth_for(src, g, kind)
+
+    def face_groups(snap, si, what):
+        """both face groups against the current face directions"""
+        nf = 0
+        t = truth_of("face")
+        ll, xyz = snap.get(LLN["face"]), snap.get(XYZN["face"])
+        if ll is None or ll == "partial" or xyz is None or xyz == "partial":
+            return report(ck, src, "group_incomplete", "face", "ll", si, what)
+        bad = check_ll(src, "face", ll[0], ll[1], t)
+        if bad:
+            nf += report(ck, src, bad[0], "face", "ll", si, what)
+        derived = case["prov"]["face"] not in ("xyz", "both")
+        bad = check_xyz(src, "face", xyz, t, derived or face_unit[0] or XYZN["face"] in normalized_groups)
+        if bad:
+            nf += report(ck, src, bad[0], "face", "xyz", si, what)
+        return nf
+
     for si in range(1, len(steps)):
         nm, ret, snap = steps[si]
         prev = steps[si - 1][2]
+        # whatever happened: the two systems of every element kind denote the same points
+        for kind in KINDS:
+            ll, xyz = snap.get(LLN[kind]), snap.get(XYZN[kind])
+            if ll is None or xyz is None or ll == "partial" or xyz == "partial":
+                continue
+            if not systems_agree(ll, xyz):
+                n_fail += report(ck, src, "systems_agree", kind, "xyz", si, "after_" + nm.split(":")[0])
+        if nm.startswith("set:"):
+            # re-assigning a variable its own values changes nothing
+            for grp in set(prev) | set(snap):
+                a_, b_ = prev.get(grp), snap.get(grp)
+                if a_ is None or b_ is None or a_ == "partial" or b_ == "partial" or any(
+                        not np.array_equal(x_, y_, equal_nan=True) for x_, y_ in zip(a_, b_)):
+                    n_fail += report(ck, src, "setter_changes_values", grp[0].split("_")[0], "ll", si, "other")
+                    break
+            continue
+        if nm == "welzl":
+            ll = snap.get(LLN["face"])
+            if ll is None or ll == "partial" or not (np.all(np.isfinite(ll[0])) and np.all(np.isfinite(ll[1]))):
+                n_fail += report(ck, src, "group_incomplete", "face", "ll", si, "welzl")
+                continue
+            # the routine's own lon/lat define the new centres; ranges and the Cartesian image are checked
+            face_override[0] = [mp_ll2xyz(mp.radians(mp.mpf(float(a))), mp.radians(mp.mpf(float(b))))
+                                for a, b in zip(ll[0], ll[1])]
+            face_unit[0] = True
+            normalized_groups.discard(XYZN["face"])
+            n_fail += face_groups(snap, si, "welzl")
+            continue
+        if nm == "cartavg":
+            had_xyz = prev.get(XYZN["face"]) not in (None, "partial")
+            if not had_xyz:
+                # no Cartesian centres stored: they are constructed from the corner nodes
+                face_override[0] = src.mean_truth("face")
+                face_unit[0] = True
+            n_fail += face_groups(snap, si, "cartesian_average")
+            continue
         if nm == "normalize":
             for grp, before in prev.items():
                 after = snap.get(grp)
@@ -443,12 +551,13 @@ def spec_check_case(ck, src, g, steps):
         idx = grp.index(nm)
         if ret is None or ret.shape != val[idx].shape or not np.array_equal(ret, val[idx], equal_nan=True):
             n_fail += report(ck, src, "getter_returns_stored", kind, sys_, si, "other")
-        truth = truth_for(src, g, kind)
+        truth = truth_of(kind)
         if sys_ == "ll":
             bad = check_ll(src, kind, val[0], val[1], truth)
         else:
             derived = case["prov"][kind] not in ("xyz", "both")
-            bad = check_xyz(src, kind, val, truth, derived or grp in normalized_groups)
+            bad = check_xyz(src, kind, val, truth, derived or grp in normalized_groups
+                            or (kind == "face" and face_unit[0]))
         if bad:
             n_fail += report(ck, src, bad[0], kind, sys_, si, bad[1])
     return n_fail
@@ -505,6 +614,11 @@ class Evaluator:
         self.corners = corners           # kind index -> list of node lists
         self.memo = {}
         self.twopi = 2 * mp.pi
+        self.welzl = None                # lon/lat reported by the latest construct_face_centers("welzl")
+
+    def set_welzl(self, ll):
+        self.welzl = ll
+        self.memo = {}
 
     def wrap(self, d):
         return (d + 180) % 360 - 180
@@ -521,7 +635,10 @@ class Evaluator:
             return self.memo[e]
         t = e[0]
         A = self.src.arrays
-        if t == 10:
+        if t == 10 and e[1] == 4:
+            # the Welzl routine's output: an opaque input of the model (randomised algorithm)
+            r = [(mp.mpf(float(a)), mp.mpf(float(b))) for a, b in zip(self.welzl[0], self.welzl[1])]
+        elif t == 10:
             k = KINDS[e[1]]
             r = [(mp.mpf(float(a)), mp.mpf(float(b))) for a, b in zip(A[LLN[k][0]], A[LLN[k][1]])]
         elif t == 11:
@@ -600,11 +717,13 @@ def compare_with_model(ck, src, g, steps, mstates):
     en = None
     if "edge_node_connectivity" in g._ds:
         en = [tuple(int(a) for a in r) for r in np.asarray(g._ds["edge_node_connectivity"].values)]
-    ev = Evaluator(src, {1: en, 2: src.faces})
+    ev = Evaluator(src, {1: en, 2: src.faces, 3: src.faces})
     if len(mstates) != len(steps):
         return {"why": "trace length", "model": len(mstates), "impl": len(steps)}
     for si, (st, ms) in enumerate(zip(steps, mstates)):
         snap = st[2]
+        if st[0] == "welzl" and snap.get(LLN["face"]) not in (None, "partial"):
+            ev.set_welzl(snap[LLN["face"]])
         gi = 0
         for k in KINDS:
             for sys_, grp in (("ll", LLN[k]), ("xyz", XYZN[k])):
@@ -642,8 +761,8 @@ def uses_edge_mean(e):
 
 
 FLAG_NAMES = ["fx_node_wrap", "fx_node_after", "fx_face_deg", "fx_edge_deg", "fx_face_norm", "fx_edge_norm",
-              "fx_edge_check", "fx_face_check"]
-REPO_FLAGS = [0] * 8
+              "fx_edge_check", "fx_face_check", "fx_welzl_deg"]
+REPO_FLAGS = [0] * 9
 
 
 def read_repo_flags(ck):
@@ -664,7 +783,7 @@ def read_repo_flags(ck):
 
 def model_line(case, flags=None):
     c = [PROV_CODE[case["prov"][k]] for k in KINDS] + [1 if case["scaled"][k] else 0 for k in KINDS]
-    ops = [NAME_OP[n] for n in case["ops"] + case["tail"]]
+    ops = [op_code(n) for n in case["ops"] + case["tail"]]
     return sx([list(flags if flags is not None else REPO_FLAGS), c, ops])
 
 
@@ -724,21 +843,21 @@ def gen_cases(ck):
         for _ in range(reps):
             cases.append(gen_case(rng, prov=dict(p)))
     # (b) every history of length <= L over one representative name per group + normalise
-    reps_names = ["node_lon", "edge_lat", "face_lon", "node_z", "edge_x", "face_y", "normalize"]
+    reps_names = ["node_lon", "edge_lat", "face_lon", "node_z", "edge_x", "face_y", "normalize", "welzl", "cartavg"]
     import itertools
     hist = [()]
     for L in (1, 2) if quick else (1, 2, 3):
         hist += list(itertools.product(reps_names, repeat=L))
     if quick:
-        hist = [h for h in hist if len(h) <= 1] + rng.sample([h for h in hist if len(h) == 2], 24)
+        hist = [h for h in hist if len(h) <= 1] + rng.sample([h for h in hist if len(h) == 2], 40)
         plist = [(p, hist) for p in rng.sample(provs, 10)]
     else:
         # all histories of length <= 2 for every provenance combination, of length 3 for a sample
-        deep = set(rng.sample(range(len(provs)), 12))
+        deep = set(rng.sample(range(len(provs)), 6))
         plist = [(p, hist if i in deep else [h for h in hist if len(h) <= 2]) for i, p in enumerate(provs)]
     for p, hs in plist:
         for h in hs:
-            names = [n if n == "normalize" else rng.choice(
+            names = [n if n in ("normalize", "welzl", "cartavg") else rng.choice(
                 (LLN if group_of(n)[1] == "ll" else XYZN)[group_of(n)[0]]) for n in h]
             cases.append(gen_case(rng, prov=dict(p), ops=names))
     # (c) free random cases (bigger meshes in the thorough tier)
@@ -748,7 +867,7 @@ def gen_cases(ck):
 
 
 def main(ck):
-    ck.check_props()
+    ck.check_props(files=["Props/C04_props.v", "Props/C04_repo_props.v"])
     ok = ck.build_driver()
     flags = read_repo_flags(ck)
     import warnings
@@ -760,7 +879,8 @@ def main(ck):
         "the prime meridian / lon 90 / inside or just outside the 1e-8 snap zone in a fixed share of cases; provenance "
         "lattice node{ll,xyz,both} x edge{none,ll,xyz,both} x face{none,ll,xyz,both}, supplied centres differ from the "
         "corner mean, longitudes supplied as [-180,180], [0,360) or mixed, supplied xyz unit or scaled; histories = "
-        "random sequences over the 18 coordinate properties and normalize_cartesian_coordinates + all histories of "
+        "random sequences over the 18 coordinate properties, normalize_cartesian_coordinates, construct_face_centers('welzl' / "
+        "'cartesian average') and re-assignments through the property setters + all histories of "
         "length <=2 (quick: sampled; thorough: <=3) over group representatives, each followed by a read of all six "
         "groups in random order; non-trivial = at least one group is derived; distinct = distinct (provenance, "
         "scaling, lon mode, history, special placement)")
@@ -777,6 +897,11 @@ def main(ck):
         dist["special"][c["special"]] = dist["special"].get(c["special"], 0) + 1
         dist["hist_len"][str(len(c["ops"]))] = dist["hist_len"].get(str(len(c["ops"])), 0) + 1
         dist["scaled"] += int(any(c["scaled"].values()))
+        for o_ in c["ops"]:
+            if o_ in ("welzl", "cartavg", "normalize") or o_.startswith("set:"):
+                k_ = o_.split(":")[0]
+                dist.setdefault("mutator_ops", {})
+                dist["mutator_ops"][k_] = dist["mutator_ops"].get(k_, 0) + 1
         for k in KINDS:
             if c["prov"][k] in ("ll", "both"):
                 dist["lonmode"][c["lonmode"][k]] = dist["lonmode"].get(c["lonmode"][k], 0) + 1
@@ -796,7 +921,8 @@ def main(ck):
                        "model_vs_impl_values": 1e-9, "snap_zone": "|z| > 1-1e-8"},
         "clauses_checked_on_impl": ["finite", "shape", "lat_range", "lon_range", "direction", "unit_length",
                                     "getter_returns_stored", "group_incomplete", "normalize_unit",
-                                    "normalize_direction", "normalize_changes_lonlat"],
+                                    "normalize_direction", "normalize_changes_lonlat", "systems_agree (every step, every kind)",
+                                    "setter_changes_values"],
         "partial": "float rounding is not modelled: the theorems are exact statements over R, the deviation of the "
                    "float implementation is validated with the tolerances above",
     })
@@ -816,7 +942,7 @@ def audit(ck, cases):
     lines = []
     for c in sample:
         cc = [PROV_CODE[c["prov"][k]] for k in KINDS] + [1 if c["scaled"][k] else 0 for k in KINDS]
-        ops = [NAME_OP[n] for n in c["ops"] + c["tail"]]
+        ops = [op_code(n) for n in c["ops"] + c["tail"]]
         lines.append("Eval vm_compute in (c04_run_enc [%s]%%Z [%s]%%Z [%s]%%Z)." % (
             ";".join(map(str, REPO_FLAGS)), ";".join(map(str, cc)), ";".join(map(str, ops))))
     rc, out = ck.audit_vm(lines, "From Verif Require Import Base C04.\nOpen Scope Z_scope.")
